@@ -76,7 +76,7 @@ func (wtr *XMLWtr) container(lvl int) node.Node {
 			return nil, nil
 		}
 		if !meta.IsList(r.Meta) {
-			if err = wtr.beginContainer(wtr.ident(r.Path)); err != nil {
+			if err = wtr.beginContainer(wtr.ident(r.Path) + wtr.xmlnsAttr(r.Path)); err != nil {
 				return nil, err
 			}
 		}
@@ -113,12 +113,15 @@ func (wtr *XMLWtr) container(lvl int) node.Node {
 		ns := ""
 
 		if l, listable := hnd.Val.(val.Listable); listable {
+			ns = wtr.changedXmlns(r.Path)
 			for i := 0; i < l.Len(); i++ {
 				wtr.writeLeafElement(ns, r.Path, l.Item(i))
 			}
 		} else {
 			if lvl == 0 && first {
 				ns = wtr.getXmlns(r.Path)
+			} else {
+				ns = wtr.changedXmlns(r.Path)
 			}
 			wtr.writeLeafElement(ns, r.Path, hnd.Val)
 		}
@@ -130,7 +133,7 @@ func (wtr *XMLWtr) container(lvl int) node.Node {
 			return
 		}
 
-		ident := wtr.ident(r.Selection.Path)
+		ident := wtr.ident(r.Selection.Path) + wtr.xmlnsAttr(r.Selection.Path)
 
 		if err = wtr.beginContainer(ident); err != nil {
 			return
@@ -153,6 +156,25 @@ func (wtr *XMLWtr) getXmlns(p *node.Path) string {
 		ns = meta.OriginalModule(p.Meta).Namespace()
 	}
 	return ns
+}
+
+// namespace of a node when it is not the one inherited from the enclosing element
+func (wtr *XMLWtr) changedXmlns(p *node.Path) string {
+	if p.Parent == nil || p.Parent.Meta == nil {
+		return ""
+	}
+	ns := wtr.getXmlns(p)
+	if ns == wtr.getXmlns(p.Parent) {
+		return ""
+	}
+	return ns
+}
+
+func (wtr *XMLWtr) xmlnsAttr(p *node.Path) string {
+	if ns := wtr.changedXmlns(p); ns != "" {
+		return " xmlns=\"" + ns + "\""
+	}
+	return ""
 }
 
 func (wtr *XMLWtr) beginContainer(ident string) (err error) {
